@@ -38,6 +38,16 @@ MUTANTS = [
     m("c10-inv-capacitance-wrong", "R5", "            self.capacitance_matrix.inv,\n            self.inner_square_matrix.inv,\n            -self._sign,", "            self.capacitance_matrix.inv,\n            self.inner_square_matrix,\n            -self._sign,"),
     m("c10-tri-transpose-lower-kept", "R5", "            self.array.T,\n            lower=not self.lower,", "            self.array.T,\n            lower=self.lower,"),
     m("c10-invtri-inv-lower-flipped", "R5", "        return TriangularMatrix(\n            self._inverse_array,\n            lower=self.lower,", "        return TriangularMatrix(\n            self._inverse_array,\n            lower=not self.lower,"),
+    m("c10-product-transpose-not-reversed", "R7", "        return type(self)(tuple(matrix.T for matrix in reversed(self.matrices)))", "        return type(self)(tuple(matrix.T for matrix in self.matrices))"),
+    m("c10-product-inv-not-reversed", "R7", "            tuple(matrix.inv for matrix in reversed(self.matrices)),", "            tuple(matrix.inv for matrix in self.matrices),"),
+    m("c10-product-left-order", "R7", "        for matrix in reversed(self.matrices):\n            other = matrix @ other\n        return other", "        for matrix in self.matrices:\n            other = matrix @ other\n        return other"),
+    m("c10-product-scalar-at-end-twice", "R7", "        return type(self)((ScaledIdentityMatrix(scalar, self.shape[0]), *self.matrices))", "        return type(self)((ScaledIdentityMatrix(scalar, self.shape[0]), *self.matrices, ScaledIdentityMatrix(scalar, self.shape[0])))"),
+    m("c10-blockdiag-right-axis", "R7", "                    self._split(other, axis=-1),\n                    strict=True,\n                )\n            ],\n            axis=-1,", "                    self._split(other, axis=-1),\n                    strict=True,\n                )\n            ],\n            axis=0,"),
+    m("c10-blockdiag-right-order", "R7", "                part @ block\n                for block, part in zip(\n                    self._blocks,\n                    self._split(other, axis=-1),", "                block @ part\n                for block, part in zip(\n                    self._blocks,\n                    self._split(other, axis=-1),"),
+    m("c10-blockdiag-inv-T", "R7", "        return type(self)(tuple(block.inv for block in self._blocks))", "        return type(self)(tuple(block.inv.T for block in self._blocks))"),
+    m("c10-blockrow-transpose-no-T", "R7", "        return BlockColumnMatrix(tuple(block.T for block in self._blocks))", "        return BlockColumnMatrix(tuple(block for block in self._blocks))"),
+    m("c10-blockrow-array-axis", "R7", "        return np.concatenate([block.array for block in self._blocks], axis=1)", "        return np.concatenate([block.array for block in self._blocks], axis=0)"),
+    m("c10-blockcol-left-axis", "R7", "        return np.concatenate([block @ other for block in self._blocks], axis=0)", "        return np.concatenate([block @ other for block in self._blocks], axis=-1)"),
     m("c10-twin-assoc", None, "        return self.eigvec @ (self.diag_eigval @ (self.eigvec.T @ other))", "        return (self.eigvec @ self.diag_eigval) @ (self.eigvec.T @ other)", twin=True),
     m("c10-twin-scalar-order", None, "        return ScaledIdentityMatrix(scalar * self._scalar, self.shape[0])", "        return ScaledIdentityMatrix(self._scalar * scalar, self.shape[0])", twin=True),
     m("c10-twin-sign-position", None, "        return self.sign * (self.factor @ (self.factor.T @ other))", "        return self.factor @ (self.sign * (self.factor.T @ other))", twin=True),
